@@ -12,6 +12,7 @@ from ..util import (U, is_const, method_call, kwarg, walk_no_nested,
                     returns_of)
 
 GEN = PKG + '.generator'
+POLICY = PKG + '.policy'
 
 SINGLE_ATTRS = {'name', 'check_str', 'deprecated_since', 'scope_types',
                 'method', 'path'}
@@ -466,11 +467,37 @@ def check_lines(ctx, fmt, sanitizer, sanitizer_ok):
             ex = en.expand(e)
             return [Hole(U(ex), classify_source(U(ex), ex), ex)]
         return None
+    cur = {'path': None}
+
+    def deref(nm):
+        """the sequence a name stands for on the current path: what it was
+        bound to, followed by what was appended to it since"""
+        d = en.defs.get(nm.id)
+        if not isinstance(d, ast.AST):
+            return None
+        p = cur['path']
+        extra = []
+        for ev in (p.events if p is not None else ()):
+            mc = method_call(ev.node) if ev.kind == 'call' else None
+            if mc and U(mc[0]) == nm.id:
+                if mc[1] == 'append' and len(ev.node.args) == 1:
+                    extra.append(ast.List(elts=[ev.node.args[0]],
+                                          ctx=ast.Load()))
+                elif mc[1] == 'extend' and len(ev.node.args) == 1:
+                    extra.append(ev.node.args[0])
+                elif mc[1] not in ('copy', 'index', 'count'):
+                    return None
+        out = d
+        for x in extra:
+            out = ast.BinOp(left=out, op=ast.Add(), right=x)
+        return out
+    hook.deref = deref
     shapes = {}
     bad = {}
     bad_rule = None
     n = n_rule = 0
     for p in paths:
+        cur['path'] = p
         if p.outcome.kind != 'return' or p.outcome.expr is None:
             continue
         n += 1
@@ -547,6 +574,44 @@ def check_lines(ctx, fmt, sanitizer, sanitizer_ok):
     return en, paths
 
 
+def _own_printed_form(prog, f, e):
+    """`str(<rule default>)` written out: what the __str__ of the rule
+    default classes returns, with the parameter in place of self (when all
+    of them share one __str__ with a single, call-free return)."""
+    import copy
+    subj = f.params[0] if f.params else None
+    owners = set()
+    for q in (POLICY + '.RuleDefault', POLICY + '.DocumentedRuleDefault'):
+        m = prog.find_method(q, '__str__')
+        owners.add(m.qual if m is not None else None)
+    if subj is None or len(owners) != 1 or None in owners:
+        return e
+    m = prog.functions[owners.pop()]
+    body = [b for b in m.node.body if not (
+        isinstance(b, ast.Expr) and isinstance(b.value, ast.Constant))]
+    if len(body) != 1 or not isinstance(body[0], ast.Return) or \
+            body[0].value is None:
+        return e
+    ret = body[0].value
+
+    class S(ast.NodeTransformer):
+        def visit_Name(self, n):
+            if n.id == 'self':
+                return ast.copy_location(ast.Name(id=subj, ctx=ast.Load()),
+                                         n)
+            return n
+
+    class T(ast.NodeTransformer):
+        def visit_Call(self, n):
+            self.generic_visit(n)
+            if isinstance(n.func, ast.Name) and n.func.id == 'str' and len(
+                    n.args) == 1 and not n.keywords and isinstance(
+                        n.args[0], ast.Name) and n.args[0].id == subj:
+                return S().visit(copy.deepcopy(ret))
+            return n
+    return T().visit(copy.deepcopy(e))
+
+
 def check_json(ctx):
     prog = ctx.prog
     fj = prog.func(GEN + '._format_rule_default_json')
@@ -558,7 +623,8 @@ def check_json(ctx):
     ok = False
     if len(rets) == 1 and len(tj.paths) == 1:
         try:
-            segs = merge(segments(tj.expand(rets[0].outcome.expr)))
+            segs = merge(segments(_own_printed_form(
+                prog, fj, tj.expand(rets[0].outcome.expr))))
             shape = [(type(s).__name__, getattr(s, 'text', None)
                       or getattr(s, 'source', None)) for s in segs]
             ok = shape == [('Lit', '"'), ('Hole', 'default.name'),
